@@ -195,6 +195,16 @@ def oracle_family(prog, qual):
             continue
         seen.add(fn.qualname)
         out.append((fn, opar))
+        # nested closures that call the objective as a free variable
+        for sub_ in ast.walk(fn.node):
+            if isinstance(sub_, ast.FunctionDef) and sub_ is not fn.node and \
+                    opar not in [a.arg for a in sub_.args.args] and any(
+                        isinstance(c, ast.Call) and
+                        isinstance(c.func, ast.Name) and c.func.id == opar
+                        for c in ast.walk(sub_)):
+                nested = prog.functions.get(fn.qualname + '.' + sub_.name)
+                if nested is not None:
+                    todo.append((nested, opar))
         for node in ast.walk(fn.node):
             if not isinstance(node, ast.Call):
                 continue
@@ -232,20 +242,35 @@ def _check_wrapper(prog, rep, fn, opar, root_qual, family):
     qual = fn.qualname
     mod = fn.module
     params = fn.params
-    info = 'info' if 'info' in fn.all_params else (
+    scope = list(fn.all_params)
+    anc = fn.parent
+    while anc is not None:
+        scope += list(anc.all_params)
+        anc = anc.parent
+    info = 'info' if 'info' in scope else (
         params[2] if len(params) > 2 else None)
     if info is None:
         return 0
+    closures = {f_.split('.')[-1] for f_ in family
+                if f_.startswith(qual + '.')}
     batch_param = params[1] if len(params) > 1 else 'I'
     _LEN_CTX[0] = fn.node
+    own_nested = [x for x in ast.walk(fn.node)
+                  if isinstance(x, ast.FunctionDef) and x is not fn.node]
+
+    def _in_nested(c):
+        return any(c in list(ast.walk(x)) for x in own_nested)
     escapes = [c for c in ast.walk(fn.node) if isinstance(c, ast.Call) and
+               not _in_nested(c) and
                not (isinstance(c.func, ast.Name) and c.func.id == opar) and
-               any(isinstance(a, ast.Name) and a.id == opar
-                   for a in list(c.args) + [k.value for k in c.keywords])]
+               (any(isinstance(a, ast.Name) and a.id == opar
+                    for a in list(c.args) + [k.value for k in c.keywords]) or
+                (isinstance(c.func, ast.Name) and c.func.id in closures))]
     n_calls = 0
-    for call in oracle_calls(fn):
-        if call.func.id != opar:
-            continue
+    oc_ = [c for c in ast.walk(fn.node) if isinstance(c, ast.Call) and
+           isinstance(c.func, ast.Name) and c.func.id == opar and
+           not _in_nested(c)]
+    for call in oc_:
         n_calls += 1
         construct = src(mod, call)
         if len(call.args) != 1 or not isinstance(call.args[0], ast.Name):
@@ -457,7 +482,9 @@ def _check_wrapper(prog, rep, fn, opar, root_qual, family):
             filt = any(isinstance(c, ast.Compare) and len(c.ops) == 1 and
                        isinstance(c.ops[0], ast.NotIn) and
                        isinstance(c.comparators[0], ast.Name) and
-                       c.comparators[0].id == 'cache' for c in g.ifs)
+                       c.comparators[0].id == 'cache'
+                       for part in list(g.ifs) + [node.elt]
+                       for c in ast.walk(part))
             comps.append((node, filt, uses_cache))
     # the batch handed to the objective in the cached mode derives from a
     # comprehension filtered by  ... not in cache
@@ -642,6 +669,7 @@ def check_stop_writers(prog, rep, functions=None):
     """Who may write info['stop'], with which literal, under which guard."""
     seen = set()
     order = []
+    computed = set()        # functions with a non-literal writer
     mods = None if functions is None else {q.split('.')[0] for q in functions}
 
     def in_scope(fn):
@@ -650,6 +678,9 @@ def check_stop_writers(prog, rep, functions=None):
         # a private helper of a listed module (code moved out of a listed
         # function keeps its obligations)
         parts = fn.qualname.split('.')
+        for k_ in range(2, len(parts)):
+            if '.'.join(parts[:k_]) in functions:
+                return True         # closure nested in a listed function
         return parts[0] in mods and len(parts) == 2 and \
             parts[1].startswith('_') and parts[0] != 'utils'
     for fn in prog.all_functions():
@@ -672,6 +703,15 @@ def check_stop_writers(prog, rep, functions=None):
                 rep.ok('P-stop-writers', fn.qualname, construct,
                        detail='reset to None')
                 continue
+            if lit is None and not isinstance(v, ast.Constant):
+                # the reason is computed (looked up in a table, returned by a
+                # helper): which literal is written under which condition is
+                # not decided here
+                computed.add(fn.qualname)
+                rep.unknown('P-stop-writers', fn.qualname, construct,
+                            'the stop reason is a computed value',
+                            line=st.lineno, file=mod.path)
+                continue
             if lit not in DOCUMENTED_STOPS:
                 rep.violation('P-stop-writers', fn.qualname, construct,
                               'stop reason %r is not one of the documented '
@@ -680,6 +720,13 @@ def check_stop_writers(prog, rep, functions=None):
                 continue
             pred = STOP_TABLE.get((fn.qualname, lit))
             table_fn = fn.qualname
+            root_ = fn
+            while root_.parent is not None:
+                root_ = root_.parent
+            if pred is None and root_ is not fn and \
+                    (root_.qualname, lit) in STOP_TABLE:
+                table_fn = root_.qualname       # closure of the table's function
+                pred = STOP_TABLE[(table_fn, lit)]
             if pred is None and fn.qualname.split('.')[-1].startswith('_'):
                 # helper of the function the table names for this reason
                 cands = [q for (q, l) in STOP_TABLE if l == lit and
@@ -711,9 +758,10 @@ def check_stop_writers(prog, rep, functions=None):
         if functions is not None and key[0] not in functions:
             continue
         if key not in seen:
-            rep.violation('P-stop-writers', key[0], "info['stop'] = %r" % key[1],
-                          'the documented stop reason %r is no longer '
-                          'reported by %s' % (key[1], key[0]))
+            rep.add('P-stop-writers', key[0], "info['stop'] = %r" % key[1],
+                    'unknown' if key[0] in computed else 'violation',
+                    'the documented stop reason %r is no longer '
+                    'reported by %s' % (key[1], key[0]))
     # priority e_vld > e > nswp in _info_appr
     ia = [(l, ln) for q, l, ln in order if q == 'utils._info_appr']
     if ia:
@@ -937,8 +985,27 @@ def check_sweep_epilogue(prog, rep, qual):
                       % (len(incs), len(deep)), line=wl.lineno, file=mod.path)
         return
     idx = wl.body.index(incs[0])
-    # all half-sweep loops precede the increment
-    late = [st for st in wl.body[idx + 1:] if isinstance(st, ast.For)]
+    # all half-sweep loops precede the increment: a later loop that calls
+    # what the loops before the increment call (the core update / the oracle
+    # request) is a half-sweep after the counter; clean-up loops are not
+    def _callees(st):
+        out = set()
+        for c in ast.walk(st):
+            if isinstance(c, ast.Call):
+                d_ = prog.dotted(c.func)
+                if d_ and not d_.startswith(('numpy.', 'np.')) and \
+                        d_.split('.')[-1] not in (
+                            'range', 'enumerate', 'zip', 'reversed', 'len',
+                            'list', 'tuple', 'copy', 'min', 'max', 'abs'):
+                    out.add(d_.split('.')[-1])
+        return out
+    early_calls = set()
+    for st in wl.body[:idx]:
+        if isinstance(st, (ast.For, ast.While)):
+            early_calls |= _callees(st)
+    late = [st for st in wl.body[idx + 1:]
+            if isinstance(st, (ast.For, ast.While)) and
+            (_callees(st) & early_calls)]
     if late:
         rep.violation('P-sweep-count', qual, src(mod, incs[0]),
                       'the sweep counter is increased before a half-sweep',
@@ -948,12 +1015,34 @@ def check_sweep_epilogue(prog, rep, qual):
     ok_last = isinstance(last, ast.If) and isinstance(last.test, ast.Call) \
         and (prog.dotted(last.test.func) or '').endswith('_info_appr') and \
         paths.always_exits(last.body)
+    if not ok_last:
+        # the other spelling:  if not _info_appr(...): continue  followed by
+        # clean-up statements and the return
+        for j_, st in enumerate(wl.body):
+            t_ = st.test if isinstance(st, ast.If) else None
+            neg = False
+            while isinstance(t_, ast.UnaryOp) and isinstance(t_.op, ast.Not):
+                t_, neg = t_.operand, not neg
+            if isinstance(t_, ast.Call) and \
+                    (prog.dotted(t_.func) or '').endswith('_info_appr'):
+                rest = wl.body[j_ + 1:]
+                if neg and st.body and all(isinstance(b, ast.Continue)
+                                           for b in st.body) and rest and \
+                        paths.always_exits(rest) and not any(
+                            isinstance(r_, (ast.For, ast.While)) and
+                            (_callees(r_) & early_calls) for r_ in rest):
+                    ok_last = True
+                    last = st
+    any_call = any(isinstance(c, ast.Call) and
+                   (prog.dotted(c.func) or '').endswith('_info_appr')
+                   for c in ast.walk(wl))
     if ok_last:
         rep.ok('P-sweep-end', qual, src(mod, last.test))
     else:
-        rep.violation('P-sweep-end', qual, 'if teneva._info_appr(...): return',
-                      'the sweep no longer ends with the shared stop-criterion '
-                      'evaluation', line=last.lineno, file=mod.path)
+        rep.add('P-sweep-end', qual, 'if teneva._info_appr(...): return',
+                'unknown' if any_call else 'violation',
+                'the sweep no longer ends with the shared stop-criterion '
+                'evaluation', line=last.lineno, file=mod.path)
     # info['e'] is accuracy(Y, Yold) with Yold a copy taken at the loop head
     first = wl.body[0]
     yold = None
@@ -1130,7 +1219,12 @@ def check_param_forwarding(prog, rep, callers=None, rule='P-forward-name'):
                 if p in bound:
                     rep.ok(rule, fn.qualname, construct)
                     continue
+                root = fn
+                while root.parent is not None:
+                    root = root.parent
                 key = (fn.qualname, callee.qualname, p)
+                if key not in FORWARD_ALLOWED:
+                    key = (root.qualname, callee.qualname, p)
                 if key not in FORWARD_ALLOWED and \
                         callee.qualname.split('.')[-1].startswith('_') and \
                         callee.module is fn.module:
@@ -1149,9 +1243,9 @@ def check_param_forwarding(prog, rep, callers=None, rule='P-forward-name'):
                             continue
                         a_ = amap.get(p)
                         if isinstance(a_, ast.Name) and a_.id == p and \
-                                (fn.qualname, tgt.qualname, p) in \
+                                (root.qualname, tgt.qualname, p) in \
                                 FORWARD_ALLOWED:
-                            key = (fn.qualname, tgt.qualname, p)
+                            key = (root.qualname, tgt.qualname, p)
                             break
                 cnt = seen[key] = seen.get(key, 0) + 1
                 lim = FORWARD_ALLOWED_COUNT.get(key[:2], 1)
